@@ -29,7 +29,7 @@ ASSUMPTIONS = [
 def check_run(case, r, acc, workdir):
     """Oracles on one finished run."""
     classes = [f'strategy-{case["opts"]["strategy"]}', f'jobs-{case["opts"]["jobs"]}',
-               f'format-{case["fmt"]}', f'mode-{case["mode"]}']
+               f'format-{case["fmt"]}', f'mode-{case["mode"]}', f'input-{case.get("source", "script")}']
     if case.get('spec_cc'):
         classes.append('cross-check')
     if r.timed_out:
@@ -86,7 +86,7 @@ def check_run(case, r, acc, workdir):
 
 def shard(ctx, acc):
     total = 160 if ctx.quick else 3200
-    strat = gen_run.run_case()
+    strat = gen_run.run_case(mixed_inputs=True)
     n = [0]
 
     def body(case):
